@@ -120,7 +120,7 @@ pub fn send_keepalive(s: &mut TcpStream, addr: &str, prep: &Prepared) -> Option<
     }
     let body: Vec<u8> = prep.chunks.concat();
     head.extend_from_slice(format!("Content-Length: {}\r\n\r\n", body.len()).as_bytes());
-    s.set_read_timeout(Some(Duration::from_secs(20))).ok();
+    s.set_read_timeout(Some(Duration::from_secs(3))).ok();
     s.write_all(&head).ok()?;
     s.write_all(&body).ok()?;
     s.flush().ok()?;
@@ -328,7 +328,10 @@ impl BinCtx {
                     if let Some(c) = self.conns.get_mut(&idx) {
                         res = send_keepalive(c, &addr, &prep);
                     }
-                    if res.is_none() {
+                    // a refusal may leave the connection unusable (the server answers without reading the
+                    // body and closes): start a new one for the next request
+                    let refused = matches!(&res, Some(Ok((st, ..))) if *st >= 400);
+                    if res.is_none() || refused {
                         self.conns.remove(&idx);
                     }
                 }
